@@ -349,6 +349,10 @@ seq_t dtw_warping_paths{{ suffix }}{{ suffix2 }}(seq_t *wps,
         for (idx_t i=ri_width; i<(ri_width + wpsi); i++) {
             wps[i] = {{infinity}};
         }
+        if (p.ri2 == p.ri3 && ri < settings->psi_1b) {
+            // Rows are not shifted: the first cell is the border cell of the begin-relaxation
+            wps[ri_width] = 0;
+        }
         {%- if "affinity" in suffix %}
         if (only_triu) {
             if (ci < ri) {
